@@ -1400,7 +1400,16 @@ impl DbInner {
 				// On error the log reader may be left in inconsistent state. So it is important
 				// to no attempt any further log enactment.
 				log::debug!(target: "parity-db", "Shutdown with error state {}", err);
-				self.log.clean_logs(self.log.num_dirty_logs())?;
+				// The applied records these log files hold must be on disk before the files
+				// are truncated (as in clean_logs); if the flush fails the logs stay and are
+				// replayed by the next open.
+				let num_cleanup = self.log.num_dirty_logs();
+				if self.options.sync_data {
+					for c in self.columns.iter() {
+						c.flush()?;
+					}
+				}
+				self.log.clean_logs(num_cleanup)?;
 				return Ok(())
 			}
 		}
